@@ -173,6 +173,15 @@ func TestC07(t *testing.T) {
 				ncSession(st)
 			}
 			if procs > 1 {
+				// several sessions of one process at the same time: state shared between connections without
+				// synchronisation is a data race the detector sees here
+				var wg sync.WaitGroup
+				for k := 0; k < 2; k++ {
+					wg.Add(2)
+					go func() { defer wg.Done(); cliSession("idle", dev.CloseEOF) }()
+					go func() { defer wg.Done(); ncSession("idle") }()
+				}
+				waitOrHang(&wg)
 				for k := 0; k < 40; k++ {
 					ncSession("second-conc")
 					cliSession("second-conc", dev.CloseEOF)
